@@ -59,6 +59,8 @@ pub(crate) struct State {
 
     #[cfg(debug_assertions)]
     pub(crate) only_in_debug: OnlyInDebug,
+    #[cfg(cormacrelf_incremental_rs_verif)]
+    pub(crate) verif_registry: RefCell<Vec<WeakNode>>,
 }
 
 impl Debug for State {
@@ -149,6 +151,8 @@ impl State {
             weak_maps: RefCell::new(vec![]),
             #[cfg(debug_assertions)]
             only_in_debug: OnlyInDebug::default(),
+            #[cfg(cormacrelf_incremental_rs_verif)]
+            verif_registry: RefCell::new(vec![]),
         })
     }
 
